@@ -86,9 +86,11 @@ Definition kmon_step (cfg : cl_cfg) (k k' : ka_state) (mouts : list ka_out) (ev 
   let pings := sns ≫= (fun td => if 0 <? pingreq_kind (snd td) then [MkPing (fst td)] else []) in
   let marks := merge_marks (length pings + length chs) pings (map (fun c => MkChg (fst c) (snd c)) chs) in
   (* the clause speaks of a live client: what happens after the client's group was cancelled in this
-     step (Disconnect, Close, a failed keep-alive ping, a DISCONNECT of the gateway) is not judged *)
+     step (Disconnect, Close, a failed keep-alive ping, a DISCONNECT of the gateway) is not judged.
+     cl_cancelled holds the time at which the receive loop exits, up to readTimeout after the instant
+     of the cancellation: only marks that are certainly before the cancellation are kept *)
   let marks := match cl_cancelled (ka_cl k') with
-               | Some te => List.filter (fun mk => mark_time mk <=? te) marks
+               | Some te => List.filter (fun mk => mark_time mk + readTimeout <=? te) marks
                | None => marks end in
   let '(since, f1) := fold_left (gap_step (ka_bound cfg)) marks (km_since m, []) in
   let alive := negb (is_some (cl_cancelled (ka_cl k'))) && negb (cl_exited (ka_cl k')) in
